@@ -86,4 +86,26 @@ hc_puthex(const uint8_t * b, size_t n)
 /* End of an answer line.  The echo of `case n` is flushed immediately so that a crash inside case n
  * is attributed to case n (and the answers of the completed cases are not lost). */
 #define HC_END() do { putchar('\n'); if (hc_was_case) fflush(stdout); } while (0)
+
+/*
+ * What the kernel does when send(2) fails with EPIPE: unless the caller passed MSG_NOSIGNAL the process
+ * also gets SIGPIPE (default action: terminate).  The scripted send() of the harnesses calls this before
+ * returning -1/EPIPE, so library code that loses the flag dies here exactly as it would in the field.
+ */
+#include <signal.h>
+#include <sys/socket.h>
+static inline void
+hc_epipe(int flags)
+{
+#ifdef MSG_NOSIGNAL
+	if ((flags & MSG_NOSIGNAL) == 0) {
+		fflush(stdout);
+		signal(SIGPIPE, SIG_DFL);
+		raise(SIGPIPE);
+	}
+#else
+	(void)flags;
+#endif
+}
+
 #endif
